@@ -115,6 +115,28 @@ func runClone(hdr Header, c any, src string) CaseResult {
 	if do, dc := dumpShape(orig), dumpShape(clone); do != dc {
 		return fail("clone-differs", do, dc)
 	}
+	// the same for an original that has been USED (resolved, validated against) before it is cloned: whatever using
+	// a tree leaves behind in it - in any field, exported or not - the clone reaches no Schema object of the original
+	{
+		used := schemaGo(cm["s"])
+		if rs, rerr := used.Resolve(nil); rerr == nil {
+			for _, in := range []any{nil, 1.0, "a", []any{1.0, "a"}, map[string]any{"a": 1.0, "ab": "a"}} {
+				rs.Validate(in)
+			}
+		}
+		uclone := used.CloneSchemas()
+		res.Evals++
+		du, dc := deepSchemaPointers(used), deepSchemaPointers(uclone)
+		for p := range dc {
+			if du[p] {
+				return fail("shared-node", "no Schema object of a resolved original reachable from its clone (through any field)",
+					"the clone of a tree that was resolved before reaches a Schema object of the original")
+			}
+		}
+		if ub, err := json.Marshal(uclone); err != nil || !bytes.Equal(ub, before) {
+			return fail("clone-differs", string(before), string(ub))
+		}
+	}
 	// both under one parent still resolve (the tree check of Resolve)
 	parent := &jsonschema.Schema{AllOf: []*jsonschema.Schema{orig, clone}}
 	if _, rerr := (&jsonschema.Schema{AllOf: []*jsonschema.Schema{schemaGo(cm["s"])}}).Resolve(nil); rerr == nil {
@@ -148,4 +170,62 @@ func mustJSON(v any) []byte {
 		return []byte(err.Error())
 	}
 	return b
+}
+
+// deepSchemaPointers returns the addresses of all Schema objects reachable from root through ANY field, exported or
+// not (reflection may read unexported fields; it only cannot hand them out).
+func deepSchemaPointers(root *jsonschema.Schema) map[uintptr]bool {
+	out := map[uintptr]bool{}
+	type key struct {
+		p uintptr
+		t reflect.Type
+	}
+	seen := map[key]bool{}
+	var walk func(v reflect.Value, depth int)
+	walk = func(v reflect.Value, depth int) {
+		if !v.IsValid() || depth > 64 {
+			return
+		}
+		switch v.Kind() {
+		case reflect.Pointer:
+			if v.IsNil() {
+				return
+			}
+			k := key{v.Pointer(), v.Type()}
+			if seen[k] {
+				return
+			}
+			seen[k] = true
+			if v.Type() == reflect.TypeOf(root) {
+				out[v.Pointer()] = true
+			}
+			walk(v.Elem(), depth+1)
+		case reflect.Interface:
+			if !v.IsNil() {
+				walk(v.Elem(), depth+1)
+			}
+		case reflect.Struct:
+			for i := 0; i < v.NumField(); i++ {
+				walk(v.Field(i), depth+1)
+			}
+		case reflect.Slice, reflect.Array:
+			if v.Kind() == reflect.Slice && v.IsNil() {
+				return
+			}
+			for i := 0; i < v.Len(); i++ {
+				walk(v.Index(i), depth+1)
+			}
+		case reflect.Map:
+			if v.IsNil() {
+				return
+			}
+			it := v.MapRange()
+			for it.Next() {
+				walk(it.Key(), depth+1)
+				walk(it.Value(), depth+1)
+			}
+		}
+	}
+	walk(reflect.ValueOf(root), 0)
+	return out
 }
